@@ -18,7 +18,14 @@ pub enum Target {
 
 #[derive(Clone, Debug, Serialize, Deserialize, PartialEq)]
 pub enum H {
-	Subscribe { conn: u8, b: bool },
+	Subscribe {
+		conn: u8,
+		b: bool,
+		/// ask the id provider to hand out the id of instance #k again (only done when that is legitimate: the
+		/// earlier subscription is on another connection, or it is over - unsubscribed or its handler let go)
+		#[serde(default)]
+		reuse: Option<u16>,
+	},
 	Act { inst: u16, cmd: Cmd },
 	Unsub { conn: u8, target: Target, other_family: bool },
 	PeerClose { conn: u8, abrupt: bool },
@@ -98,6 +105,8 @@ pub struct SubWorld {
 	pub failures: Vec<(String, String)>,
 	pub exact: bool,
 	pub cap: u32,
+	/// how many subscriptions were given an id that an earlier one had
+	pub reused: u32,
 }
 
 fn family(b: bool) -> (&'static str, &'static str, &'static str) {
@@ -112,7 +121,7 @@ impl SubWorld {
 			let ws = if case.lowlevel { fix.ws_lowlevel().await.ok() } else { fix.ws_with(duplex).await.ok() };
 			conns.push(ConnM { open: ws.is_some(), ws, frames: vec![], reading_paused: false, closed_by_stop: false });
 		}
-		SubWorld { fix, conns, insts: vec![], pending: vec![], acks: vec![], n: 0, req_no: 0, stopped: false, unsub_results: vec![], refusals: vec![], failures: vec![], exact, cap: case.cap }
+		SubWorld { fix, conns, insts: vec![], pending: vec![], acks: vec![], n: 0, req_no: 0, stopped: false, unsub_results: vec![], refusals: vec![], failures: vec![], exact, cap: case.cap, reused: 0 }
 	}
 
 	pub fn held_permits(&self, conn: usize) -> usize {
@@ -235,10 +244,28 @@ impl SubWorld {
 
 	pub async fn step(&mut self, h: &H, settle_after: bool) {
 		match h {
-			H::Subscribe { conn, b } => {
+			H::Subscribe { conn, b, reuse } => {
 				let ci = *conn as usize % self.conns.len();
 				if !self.conns[ci].open || self.stopped {
 					return;
+				}
+				if let (Some(k), false) = (reuse, self.insts.is_empty()) {
+					let i = pick_idx(*k, self.insts.len());
+					if let Some(id) = self.insts[i].sub_id.clone() {
+						// every subscription of this connection that has (or may still get) that id must be over
+						let free = self.insts.iter().all(|x| {
+							x.conn != ci
+								|| match x.phase {
+									Phase::Pending => false,
+									Phase::Accepted => x.sub_id.as_ref() != Some(&id) || x.unsubscribed || x.returned.is_some() || x.sinks_live == 0,
+									_ => true,
+								}
+						}) && self.pending.is_empty();
+						if free && self.exact {
+							self.fix.forced_ids.lock().push_back(id);
+							self.reused += 1;
+						}
+					}
 				}
 				self.req_no += 1;
 				let rid = format!("sub-req-{}", self.req_no);
@@ -252,6 +279,7 @@ impl SubWorld {
 				settle().await;
 				self.drain().await;
 				let actors_after = self.fix.ctx.actors.lock().len();
+				self.fix.forced_ids.lock().clear();
 				let refused = self.conns[ci].frames.iter().any(|f| f["id"] == json!(rid) && f["error"]["code"] == json!(-32006));
 				if actors_after > actors_before {
 					self.insts.push(Inst { conn: ci, b: *b, req_id: rid.clone(), phase: Phase::Pending, sub_id: None, sinks_live: 0, clone_dropped: false, returned: None, unsubscribed: false, close_observed: false, sends: vec![], actor_busy: false });
@@ -301,7 +329,10 @@ impl SubWorld {
 				};
 				self.req_no += 1;
 				let rid = format!("unsub-req-{}", self.req_no);
-				let want_true = target_inst.is_some_and(|i| self.insts[i].conn == ci && self.insts[i].b == fam_b && self.active(i));
+				// the request names an id, not an instance: it hits whichever subscription of this connection and family
+				// is active under that id right now (ids may be handed out again)
+				let hit = (0..self.insts.len()).find(|&j| self.insts[j].conn == ci && self.insts[j].b == fam_b && self.insts[j].sub_id.as_ref() == Some(&x) && self.active(j));
+				let want_true = hit.is_some();
 				let msg = json!({"jsonrpc":"2.0","id":rid,"method":family(fam_b).1,"params":[x]});
 				if let Some(ws) = self.conns[ci].ws.as_mut() {
 					let _ = ws.send_text(&msg.to_string()).await;
@@ -317,7 +348,7 @@ impl SubWorld {
 						self.failures.push((sig.into(), format!("unsubscribe({x}) via {} on conn {ci} answered {reply:?}, model says {want_true}; target instance {:?}", family(fam_b).1, i.map(|i| self.insts[i].clone()))));
 					}
 					if got == Some(true) {
-						if let Some(i) = target_inst {
+						if let Some(i) = hit.or(target_inst) {
 							self.insts[i].unsubscribed = true;
 						}
 					}
@@ -451,7 +482,7 @@ pub fn arb_step(with_pauses: bool) -> BoxedStrategy<H> {
 	let conn = if with_pauses { prop_oneof![3 => Just(0u8), 1 => 0u8..3].boxed() } else { (0u8..3).boxed() };
 	let cmd = if with_pauses { arb_cmd_sends() } else { arb_cmd() };
 	let base = prop_oneof![
-		5 => (conn, any::<bool>()).prop_map(|(conn, b)| H::Subscribe { conn, b }),
+		5 => (conn, any::<bool>(), proptest::option::weighted(0.25, any::<u16>())).prop_map(|(conn, b, reuse)| H::Subscribe { conn, b, reuse }),
 		14 => (any::<u16>(), cmd).prop_map(|(inst, cmd)| H::Act { inst, cmd }),
 		4 => (0u8..3, prop_oneof![6 => any::<u16>().prop_map(Target::Inst), 1 => Just(Target::Stale), 1 => (0u8..4).prop_map(Target::Garbage)], proptest::bool::weighted(0.1)).prop_map(|(conn, target, other_family)| H::Unsub { conn, target, other_family }),
 		1 => (0u8..3, any::<bool>()).prop_map(|(conn, abrupt)| H::PeerClose { conn, abrupt }),
